@@ -107,6 +107,12 @@ const (
 	Reflect
 )
 
+// maxGradientRepeats is the number of periods beyond which a repeating gradient
+// is rendered as its average color : its period is then too small to be rendered faithfully,
+// see https://drafts.csswg.org/css-images-3/#repeating-gradients
+// (and repeating it would require as many color stops).
+const maxGradientRepeats = 1 << 12
+
 // LinearGradient handle spread (repeat) for linear gradients
 // It is used for SVG and CSS gradient rendering.
 func (spread GradientSpread) LinearGradient(positions []Fl, colors []parser.RGBA, x1, y1, dx, dy, vectorLength Fl) backend.GradientLayout {
@@ -122,6 +128,10 @@ func (spread GradientSpread) LinearGradient(positions []Fl, colors []parser.RGBA
 		// Define defined gradient length and steps between positions
 		stopLength := last - first
 		// assert stopLength > 0
+		if !(stopLength*maxGradientRepeats >= utils.MaxF(vectorLength-last, 0)+utils.MaxF(first, 0)) {
+			color := gradientAverageColor(colors, positions)
+			return backend.GradientLayout{ScaleY: 1, GradientKind: backend.GradientKind{Kind: "solid"}, Colors: []parser.RGBA{color}}
+		}
 		positionSteps := make([]Fl, len(positions)-1)
 		for i := range positionSteps {
 			positionSteps[i] = positions[i+1] - positions[i]
@@ -182,6 +192,11 @@ func (spread GradientSpread) RadialGradient(positions []Fl, colors []parser.RGBA
 
 	// Define the coordinates of the gradient circles
 	fr, r = fr+(r-fr)*first, fr+(r-fr)*last
+
+	if extent := utils.Hypot(width, height) + utils.Hypot(fx, fy) + utils.MaxF(fr, 0); spread != NoRepeat && !((r-fr)*maxGradientRepeats >= extent) {
+		color := gradientAverageColor(colors, positions)
+		return backend.GradientLayout{ScaleY: 1, GradientKind: backend.GradientKind{Kind: "solid"}, Colors: []parser.RGBA{color}}
+	}
 
 	circles := [6]Fl{fx, fy, fr, cx, cy, r}
 
